@@ -95,6 +95,15 @@ def run(ctx):
     for i, (name, text) in enumerate(workloads.sample_files()):
         if i % ctx.nshards == ctx.shard:
             check(ctx, text, OPTS[0], 'sample:' + name)
+    # the hooks the contrib renderers override see the *edges* of a construct's content: white space, character references
+    # that decode to white space, line breaks and markup at the start / end of headings, links, code blocks and the document
+    k = 0
+    for edge in ('&nbsp;', '&#32;', '&emsp;', '&#9;', '&#160;', '\xa0', '\u2003', '*e*', '`c`', '<b>', '\\', '[l](/u)', '![i](/s)'):
+        for shape in ('# %sx\n', '## x%s\n', '### %sx%s ###\n', 'x%s\n===\n', '%sx\ny%s\n---\n', '> #### %sx\n', '- ## x%s\n\n  text\n',
+                      '[%sx%s](/u "%s")\n', '```%s\nx%s\n```\n', '%s\n', 'a\n\n%s\n'):
+            k += 1
+            if k % ctx.nshards == ctx.shard:
+                check(ctx, shape.replace('%s', edge), OPTS[k % len(OPTS)], 'edges')
     try:
         from .. import gen
     except ImportError:
